@@ -9,6 +9,7 @@ import (
 
 	"github.com/foxboron/go-uefi/authenticode"
 	"github.com/foxboron/go-uefi/efi/signature"
+	"github.com/foxboron/go-uefi/pkcs7"
 
 	"verif/internal/keys"
 	"verif/internal/mon"
@@ -169,6 +170,40 @@ func checkC04(r *mon.Run) {
 			r.Count("seeds_verifying_with_right_cert", 1)
 		} else {
 			r.Note("seed %s does not verify with its own certificate (%s) — completeness is C05/C16's concern", seed.Name, base.String())
+		}
+		if m := inputModified.Load(); m != nil {
+			r.Violation("C04|input-buffer-modified", m.(string)+" — seed "+seed.Name, map[string]any{"seed": seed.Name, "blob_hex": mon.Hex(seed.Blob)})
+		}
+		// one parsed object asked about several certificates in sequence: every answer must stand on its own
+		for _, order := range [][]int{{0, 2, 1}, {2, 0, 2}, {1, 0, 1, 2}} {
+			if len(certs) < 3 {
+				break
+			}
+			var p7 *pkcs7.PKCS7
+			var perr error
+			if pp := tryP(func() { p7, perr = pkcs7.ParsePKCS7(append([]byte(nil), seed.Blob...)) }); pp != "" || perr != nil {
+				break
+			}
+			sd, rerr := refp7.Parse(seed.Blob)
+			if rerr != nil {
+				break
+			}
+			var asked []string
+			for _, ci := range order {
+				cc := certs[ci]
+				asked = append(asked, cc.kind)
+				var ok bool
+				if pp := tryP(func() { ok, _ = p7.Verify(cc.c) }); pp != "" {
+					break
+				}
+				r.Eval(1)
+				r.Count("same_object_sequence_verifications", 1)
+				if ok && !sd.Verify(cc.c).OK {
+					r.Violation("C04|pkcs7|same-object-sequence|cert="+cc.kind, fmt.Sprintf("one parsed object asked %v in turn: Verify reported success for the %s certificate, which the independent verifier refuses (%s) — seed %s", asked, cc.kind, sd.Verify(cc.c).Reason, seed.Name),
+						map[string]any{"seed": seed.Name, "blob_hex": mon.Hex(seed.Blob), "order": asked})
+					break
+				}
+			}
 		}
 		if si < 3 {
 			r.Sample(map[string]any{"seed": seed.Name, "producer": seed.Producer, "bytes": len(seed.Blob), "attached": seed.Attached, "library_baseline": base.String()})
